@@ -3,6 +3,8 @@ package main
 import (
 	"encoding/json"
 	"fmt"
+	"io"
+	"log"
 	"math/bits"
 	"reflect"
 	"sort"
@@ -323,6 +325,9 @@ func inUse(enc [][]string, ch string) bool {
 
 var c18AuxMap = stackage.Auxiliary{"k": 1}
 
+// an allocated map without entries: it is the caller's map all the same (never written to by the harness)
+var c18EmptyAux = stackage.Auxiliary{}
+
 func c18SetOps() []setOp {
 	var ops []setOp
 	add := func(n string, f func(in *setInst)) { ops = append(ops, setOp{n, f}) }
@@ -392,6 +397,7 @@ func c18SetOps() []setOp {
 	add("SetAuxiliary()", func(in *setInst) { in.s.SetAuxiliary(); in.aux, in.auxOK = nil, false })
 	add("SetAuxiliary(nil)", func(in *setInst) { in.s.SetAuxiliary(nil); in.aux, in.auxOK = nil, false })
 	add("SetAuxiliary(map)", func(in *setInst) { in.s.SetAuxiliary(c18AuxMap); in.aux, in.auxOK = c18AuxMap, true })
+	add("SetAuxiliary(empty map)", func(in *setInst) { in.s.SetAuxiliary(c18EmptyAux); in.aux, in.auxOK = c18EmptyAux, true })
 	add("SetFold(true)", func(in *setInst) { in.s.SetFold(true); in.fold = true })
 	add("SetFold(false)", func(in *setInst) { in.s.SetFold(false); in.fold = false })
 	add("SetFIFO(true)", func(in *setInst) { in.s.SetFIFO(true); in.fifo = true })
@@ -567,6 +573,7 @@ func c18CondSetMachine(c *Ctx) *Machine[*csetInst] {
 	add("SetAuxiliary()", func(in *csetInst) { in.c.SetAuxiliary(); in.aux, in.auxOK = nil, false })
 	add("SetAuxiliary(nil)", func(in *csetInst) { in.c.SetAuxiliary(nil); in.aux, in.auxOK = nil, false })
 	add("SetAuxiliary(map)", func(in *csetInst) { in.c.SetAuxiliary(c18AuxMap); in.aux, in.auxOK = c18AuxMap, true })
+	add("SetAuxiliary(empty map)", func(in *csetInst) { in.c.SetAuxiliary(c18EmptyAux); in.aux, in.auxOK = c18EmptyAux, true })
 	name := "C18 settings Condition"
 	return &Machine[*csetInst]{
 		Name:    name,
@@ -636,6 +643,8 @@ var lvlArgs = []struct {
 	{"UserLogLevel10", stackage.UserLogLevel10, 32768}, {`"user2"`, "user2", 128}, {"LogLevel(6)", stackage.LogLevel(6), 6},
 }
 
+var c18Logger = log.New(io.Discard, "c18 ", 0)
+
 var lvlNames = []string{"CALLS", "POLICY", "STATE", "DEBUG", "ERROR", "TRACE", "USER1", "USER2", "USER3", "USER4", "USER5", "USER6", "USER7", "USER8", "USER9", "USER10"}
 
 func refLevels(m uint16) string {
@@ -656,25 +665,32 @@ func refLevels(m uint16) string {
 
 func c18LvlMachine(c *Ctx, what string, pairs bool) *Machine[*lvlInst] {
 	type op struct {
-		set  bool
-		args []int
+		set    bool
+		args   []int
+		logger string // non-empty: SetLogger with this designation (the levels must not move)
 	}
 	var ops []op
+	for _, l := range []string{"stderr", "off", "*log.Logger"} {
+		ops = append(ops, op{logger: l})
+	}
 	for _, set := range []bool{true, false} {
 		for i := range lvlArgs {
-			ops = append(ops, op{set, []int{i}})
+			ops = append(ops, op{set: set, args: []int{i}})
 		}
 		if pairs {
 			for i := range lvlArgs {
 				for j := range lvlArgs {
-					ops = append(ops, op{set, []int{i, j}})
+					ops = append(ops, op{set: set, args: []int{i, j}})
 				}
 			}
 		}
-		ops = append(ops, op{set, nil})
+		ops = append(ops, op{set: set})
 	}
 	name := "C18 log levels " + what
 	opName := func(o op) string {
+		if o.logger != "" {
+			return "SetLogger(" + o.logger + ")"
+		}
 		var p []string
 		for _, a := range o.args {
 			p = append(p, lvlArgs[a].n)
@@ -708,6 +724,14 @@ func c18LvlMachine(c *Ctx, what string, pairs bool) *Machine[*lvlInst] {
 			meth := "UnsetLogLevel"
 			if o.set {
 				meth = "SetLogLevel"
+			}
+			if o.logger != "" {
+				meth = "SetLogger"
+				var l any = o.logger
+				if o.logger == "*log.Logger" {
+					l = c18Logger
+				}
+				args = []reflect.Value{reflect.ValueOf(l)}
 			}
 			reflect.ValueOf(in.x).MethodByName(meth).Call(args)
 			// reference bit-set with the 'none' and 'all' shortcuts (log.go documentation)
@@ -749,7 +773,10 @@ func c18LvlMachine(c *Ctx, what string, pairs bool) *Machine[*lvlInst] {
 			return out
 		},
 		Observe: func(in *lvlInst) { observeAll(in.x) },
-		Key:     func(in *lvlInst) string { return fmt.Sprint(stackage.VerifDump(in.x).LogLvl) },
+		Key: func(in *lvlInst) string {
+			d := stackage.VerifDump(in.x)
+			return fmt.Sprint(d.LogLvl, d.LogAddr)
+		},
 	}
 }
 
